@@ -209,6 +209,12 @@ theorem pruneFrom_removes_only_leaf_side (p : Profile) (q : Str → Bool) :
     (∀ l, (pruneFromLoc p q l).1.lines <:+ l.lines ∧ (pruneFromLoc p q l).1.id = l.id) :=
   ⟨pruneFromSample_suffix p q, fun l => ⟨pruneFromLoc_suffix p q l, pruneFromLoc_id p q l⟩⟩
 
+/-- The frame-level statement for prune_from, UNCONDITIONAL: frames after are, in order, a sublist
+of the frames before. -/
+theorem pruneFrom_frames_only_removed (p : Profile) (q : Str → Bool) (s : Sample) :
+    List.Sublist (frames (pruneFromWith p q) (pruneFromSample p q s)) (frames p s) :=
+  pruneFrom_frames_sublist p q s
+
 /-- prune_from with an expression that names no line of any location is the identity. -/
 theorem pruneFrom_no_match_identity (p : Profile) (q : Str → Bool)
     (h : ∀ l ∈ p.locations, ∀ ln ∈ l.lines, lineMatches p q ln = false) : pruneFromWith p q = p :=
